@@ -4,6 +4,7 @@ import (
 	"fmt"
 	"os"
 	"path/filepath"
+	"regexp"
 	"strings"
 	"time"
 )
@@ -28,6 +29,7 @@ func runC09(c *Ctx) {
 	n := c.N(300, 12000)
 	dir := filepath.Join(c.WorkDir, "c09")
 	os.MkdirAll(dir, 0o755)
+	runC09Text(c, dir)
 	var cases []*printCase
 	for i := 0; i < n; i++ {
 		if !c.Want("print", i) {
@@ -38,7 +40,7 @@ func runC09(c *Ctx) {
 			ManyDecimals: r.Chance(1, 2), Mutate: r.Chance(1, 12), Accruals: r.Chance(1, 3)}
 		if r.Chance(1, 2) {
 			o.Prices, o.Valuation, o.DupPrices = true, "CHF", true
-			o.LongPrices, o.ChainPrices, o.ManyPricesPerDay = r.Chance(1, 2), r.Chance(1, 2), r.Chance(1, 2)
+			o.LongPrices, o.ChainPrices = r.Chance(1, 2), r.Chance(1, 2)
 		}
 		o.CaseVariants = true
 		j, tags := GenJournal(r, o)
@@ -100,6 +102,17 @@ func runC09(c *Ctx) {
 				f.Impl = clip(pc.Out1 + pc.Err1)
 			}
 		}, "print", pc.J.Wire())
+		// the command model on the SAME input text: Cmd.run .print of a one-file file system (= FromSyntax.printFile of the bytes,
+		// Knut.C09.C09_cmd_print_is_printFile), byte for byte, rejected inputs included
+		bt.Add(func(model string) {
+			if !c.Compare("print", pc.Idx, "print_text", in, impl, model) {
+				f := &c.Findings[len(c.Findings)-1]
+				if strings.HasPrefix(model, "ok ") {
+					f.Model = clip(UnHex(strings.TrimPrefix(model, "ok ")))
+				}
+				f.Impl = clip(pc.Out1 + pc.Err1)
+			}
+		}, "c09printtext", Hex(pc.Text))
 		// the same round trip inside the model: print, re-read with the Lean parser + FromSyntax, print again
 		bt.Add(func(m string) {
 			if m == "rejected" || m == "unsupported" {
@@ -114,6 +127,149 @@ func runC09(c *Ctx) {
 			}
 			c.Monitor("print", pc.Idx, "reports_equal", in, pc.BalCodeA == pc.BalCodeB && pc.BalA == pc.BalB,
 				fmt.Sprintf("balance %s differs between original (exit %d) and printed journal (exit %d):\n%s\n---\n%s", strings.Join(pc.F.Args(), " "), pc.BalCodeA, pc.BalCodeB, pc.BalA, pc.BalB))
+		}
+	}
+}
+
+// c09TextCase is a case of the stream `text`: a generated journal text with one text-level mutation, most of which make
+// knut reject it (syntax error, calendar date, account type, decimal, unresolved include, transaction.Create panic).
+type c09TextCase struct {
+	Idx         int
+	Kind        string
+	Text        string
+	Code, Code2 int
+	Out1, Err1  string
+	Out2        string
+}
+
+var c09DateRe = regexp.MustCompile(`\d{4}-\d{2}-\d{2}`)
+var c09NumRe = regexp.MustCompile(` -?\d+(\.\d+)? `)
+
+const c09PanicTx = "@accrue monthly 0001-01-01 0001-03-01 Assets:A\n2020-01-01 \"x\"\nAssets:B Expenses:C 10 CHF\n\n"
+
+func c09ReplaceAt(text string, loc []int, with string) string {
+	return text[:loc[0]] + with + text[loc[1]:]
+}
+
+func c09Mutate(r *RNG, text string) (string, string) {
+	lines := strings.SplitAfter(text, "\n")
+	switch k := r.Intn(13); k {
+	case 0:
+		return "unchanged", text
+	case 1, 2:
+		if locs := c09DateRe.FindAllStringIndex(text, -1); len(locs) > 0 {
+			bad := Pick(r, []string{"2021-02-30", "2021-13-01", "2021-00-10", "2021-04-31", "1900-02-29", "0000-01-01", "2021-01-00", "٢٠٢١-01-01"})
+			return "bad-date", c09ReplaceAt(text, locs[r.Intn(len(locs))], bad)
+		}
+	case 3:
+		if len(text) > 0 {
+			return "truncated", text[:r.Intn(len(text))]
+		}
+	case 4:
+		if len(text) > 0 {
+			i := r.Intn(len(text))
+			b := Pick(r, []string{"\xff", "\"", "\n", " ", "\xc3", "#", "@", ":", "x"})
+			if r.Bool() {
+				return "byte-inserted", text[:i] + b + text[i:]
+			}
+			return "byte-replaced", text[:i] + b + text[i+1:]
+		}
+	case 5:
+		i := r.Intn(len(lines) + 1)
+		return "include-missing", strings.Join(lines[:i], "") + "include \"missing.knut\"\n" + strings.Join(lines[i:], "")
+	case 6:
+		if n := strings.Count(text, "Assets:"); n > 0 {
+			return "account-type", strings.Replace(text, "Assets:", Pick(r, []string{"Foo:", "assets:", "Asset:"}), 1)
+		}
+	case 7:
+		return "create-panic", c09PanicTx + text
+	case 8:
+		if locs := c09DateRe.FindAllStringIndex(text, -1); len(locs) > 0 {
+			return "create-panic-then-bad-date", c09PanicTx + c09ReplaceAt(text, locs[r.Intn(len(locs))], "2021-02-30")
+		}
+	case 9:
+		if len(lines) > 1 {
+			i := r.Intn(len(lines))
+			return "line-deleted", strings.Join(lines[:i], "") + strings.Join(lines[i+1:], "")
+		}
+	case 10:
+		if len(lines) > 1 {
+			i := r.Intn(len(lines))
+			return "line-doubled", strings.Join(lines[:i+1], "") + strings.Join(lines[i:], "")
+		}
+	case 11:
+		if locs := c09NumRe.FindAllStringIndex(text, -1); len(locs) > 0 {
+			bad := Pick(r, []string{" 1.2.3 ", " ١٢ ", " 1. ", " .5 ", " 1e3 ", " -0 ", " 007.50 "})
+			return "bad-decimal", c09ReplaceAt(text, locs[r.Intn(len(locs))], bad)
+		}
+	case 12:
+		return "accrue-interval", "@accrue " + Pick(r, []string{"once", "yearly", "monthly", "daily"}) + " 2020-01-01 2020-03-01 Assets:A\n2020-01-01 \"x\"\nAssets:B Expenses:C 10 CHF\n\n" + text
+	}
+	return "unchanged", text
+}
+
+func runC09Text(c *Ctx, dir string) {
+	n := c.N(150, 4000)
+	var cases []*c09TextCase
+	for i := 0; i < n; i++ {
+		if !c.Want("text", i) {
+			continue
+		}
+		r := c.Rng("text", i)
+		o := JGenOpts{MaxAccounts: r.Range(2, 5), MaxDays: r.Range(1, 4), Unicode: true, BaseDay: 737000 + r.Intn(1500), SpanDays: Pick(r, []int{0, 3, 30}),
+			ManyDecimals: r.Chance(1, 2), Accruals: r.Chance(1, 3)}
+		if r.Chance(1, 3) {
+			o.Prices, o.Valuation = true, "CHF"
+		}
+		j, _ := GenJournal(r, o)
+		text, _ := j.Text()
+		kind, mut := c09Mutate(r, text)
+		cases = append(cases, &c09TextCase{Idx: i, Kind: kind, Text: mut})
+	}
+	parallelFor(len(cases), 16, func(k int) {
+		tc := cases[k]
+		sub := filepath.Join(dir, fmt.Sprintf("t%d", tc.Idx))
+		os.MkdirAll(sub, 0o755)
+		p1 := filepath.Join(sub, "j.knut")
+		p2 := filepath.Join(sub, "k.knut")
+		os.WriteFile(p1, []byte(tc.Text), 0o644)
+		tc.Code, tc.Out1, tc.Err1 = runKnut(c.KnutBin, 20*time.Second, nil, "print", p1)
+		if tc.Code == 0 {
+			os.WriteFile(p2, []byte(tc.Out1), 0o644)
+			tc.Code2, tc.Out2, _ = runKnut(c.KnutBin, 20*time.Second, nil, "print", p2)
+		}
+		os.RemoveAll(sub)
+	})
+	bt := c.NewBatch()
+	defer bt.Flush()
+	for _, tc := range cases {
+		tc := tc
+		c.Evals++
+		in := map[string]any{"text": tc.Text, "text_hex": Hex(tc.Text), "mutation": tc.Kind}
+		impl := "error"
+		if tc.Code == 0 {
+			impl = "ok " + Hex(tc.Out1)
+		}
+		if strings.Contains(tc.Err1, "panic") {
+			impl = "panic"
+		}
+		c.Tag("text:" + tc.Kind)
+		c.Class(fmt.Sprintf("c09text/%s/%s", tc.Kind, strings.Fields(impl)[0]))
+		bt.Add(func(model string) {
+			if !c.Compare("text", tc.Idx, "print_text", in, impl, model) {
+				f := &c.Findings[len(c.Findings)-1]
+				if strings.HasPrefix(model, "ok ") {
+					f.Model = clip(UnHex(strings.TrimPrefix(model, "ok ")))
+				}
+				f.Impl = clip(tc.Out1 + tc.Err1)
+			}
+		}, "c09printtext", Hex(tc.Text))
+		if tc.Code == 0 {
+			// C09_cmd_print_idempotent, decided on the real binary for this input text
+			c.Monitor("text", tc.Idx, "print_output_accepted", in, tc.Code2 == 0, "printed journal is rejected:\n"+tc.Out1)
+			if tc.Code2 == 0 {
+				c.Monitor("text", tc.Idx, "print_fixpoint", in, tc.Out2 == tc.Out1, "print(print(text)) differs:\n"+tc.Out1+"\n---\n"+tc.Out2)
+			}
 		}
 	}
 }
